@@ -135,4 +135,14 @@ TEXT = {
         "note": "Trusted: Lean kernel; encoding/json (text <-> tree, string escaping); the small JSON reader in Model/Json.lean (specification side). JSON member names are matched case-sensitively "
                 "in the model (encoding/json is case-insensitive; the generator uses exact case).",
     },
+    "C19": {
+        "text": "Lean 4 theorems (Props/C19.lean) over the model of SendRequest's select loop as a function of any timed message history: the first message that is not a pre-response and "
+                "arrives before the current deadline is returned and everything later is ignored; each timeout pre-response restarts the deadline with the announced duration and is "
+                "reported to the callbacks, other pre-responses change nothing; the result is the timeout error exactly when no response arrives before the current deadline; marshal, "
+                "subscribe and publish failures are internal errors without waiting; the subscription is released on every path; pre-response recognition (first byte a letter, "
+                "timeout:\"<digits>\"). Tie: real SendRequest against a scripted connection (failing operations, sequences of pre-responses, responses and silences on a 30 ms grid, "
+                "arrivals never on a deadline), run 48-wide in parallel.",
+        "note": "PARTIAL: scheduler latency and timer resolution are outside the model (grid of 30 ms, arrivals and deadlines at least one unit apart); a message exactly at a deadline is a genuine race "
+                "in select and excluded. Trusted: Lean kernel, reflect.StructTag.Lookup/strconv.Atoi as modelled, nats.Subscription.Unsubscribe (the release is the deferred call in the code).",
+    },
 }
